@@ -30,6 +30,13 @@ def firstCallRule (rules : List Rule) (name : Str) : Option Rule :=
 def firstImportRule (rules : List Rule) (names : List Str) : Option Rule :=
   rules.find? (fun r => names.any (fun nm => r.qualnames.any (fun qn => Str.startsWith nm qn)))
 
+/-- the names an import statement is judged by: `prefix + alias.name` -/
+def importFullNames (n : Node) : List Str :=
+  let pfx : Str := if n.isKind "ImportFrom" then
+      match importModule? n with | some m => m ++ ['.'] | none => []
+    else []
+  (importNames n).map fun x => pfx ++ x.1
+
 /-- The name the Call branch looks up; `none` is Python's `None` (never matches). -/
 def blacklistCallName (e : Env) (c : CallView) : M (Option Str) :=
   if c.func.nameId? == some "__import__".toList then
@@ -62,11 +69,7 @@ def blacklistRun (t : BlTables) (e : Env) : M (Option Raw) :=
       | some r => pure (some { id := r.id, sev := r.level, conf := .high })
       | none => pure none
   else if n.isKind "Import" || n.isKind "ImportFrom" then
-    let pfx : Str := if n.isKind "ImportFrom" then
-        match importModule? n with | some m => m ++ ['.'] | none => []
-      else []
-    let names := (importNames n).map fun (nm, _) => pfx ++ nm
-    match firstImportRule (t.rulesFor n.kind) names with
+    match firstImportRule (t.rulesFor n.kind) (importFullNames n) with
     | some r => pure (some { id := r.id, sev := r.level, conf := .high })
     | none => pure none
   else pure none
